@@ -219,3 +219,58 @@ def best_independent_of_history(h):
         h.call(h.getattr(s, '_AbstractEnsembleSolver__update_bestSolver'))
         outs.append(h.field(s, '_bestSolver'))
     h.check('same-best-member-whatever-the-previous-best', 'same(a, b)', a=outs[0], b=outs[1])
+
+
+@contract('C09/ensemble.__get_solver_instance', ['C09', 'C02', 'C03'], ENS + '.__get_solver_instance', native=False)
+def member_instance(h):
+    """a member built from a solver class is handed every setting of the ensemble through the matching setter: the
+    strict ranges with their tight / clip mode (iff ranges are set), the limits, the termination, the constraints, the
+    penalty, the reducer (iff set), the raw objective with its extra arguments, the save frequency"""
+    if not h.is_sym():
+        h.unsupported('symbolic only')
+    strict = h.choice('useStrictRange', [False, True])
+    red = h.choice('reducer', [None, 'set'])
+    reset = h.choice('reset', [False, True])
+    vals = dict(_strictMin=h.vec('min', 2), _strictMax=h.vec('max', 2), _useTightRange=h.choice('tight', [None, True]),
+                _useClipRange=None, _maxiter=h.int('maxiter'), _maxfun=h.int('maxfun'),
+                _termination=h.fn('TERM', ret='bool'), _constraints=h.fn('CONS', ret='same'), _penalty=h.fn('PEN', ret='real'),
+                _reducer=h.fn('RED', ret='real') if red else None, _saveiter=h.int('saveiter'), _state='file.pkl')
+    raw, extra = h.fn('RAW', ret='real'), h.tup(1.5)
+    mon = lambda lab: h.obj(MON, _x=h.clist([]), _y=h.clist([]), _id=h.clist([]), _info=h.clist([]), k=None, _npts=None, label=lab)  # noqa: E731
+    s = h.obj(ENS, nDim=2, _solver=h.get('mystic/scipy_optimize.py::NelderMeadSimplexSolver'), _useStrictRange=strict,
+              _cost=h.tup(None, raw, extra), _evalmon=mon('e'), _stepmon=mon('s'), **vals)
+    calls = []
+
+    def rec(name):
+        def f(I, c, args, kwargs):
+            calls.append((name, list(args[1:]), dict(kwargs)))
+            return None
+        return f
+    A_ = 'mystic/abstract_solver.py'
+    table = {('mystic/scipy_optimize.py', 'NelderMeadSimplexSolver.__init__'): rec('init')}
+    for m in ('SetRandomInitialPoints', 'SetStrictRanges', 'SetEvaluationMonitor', 'SetGenerationMonitor', 'SetEvaluationLimits',
+              'SetTermination', 'SetConstraints', 'SetPenalty', 'SetReducer', 'SetObjective', 'SetSaveFrequency'):
+        table[(A_, 'AbstractSolver.' + m)] = rec(m)
+    h.set_summaries(table)
+    member = h.call(h.getattr(s, '_AbstractEnsembleSolver__get_solver_instance'), reset)
+    by = {}
+    for name, a, k in calls:
+        by.setdefault(name, []).append((a, k))
+
+    def once(name):
+        return len(by.get(name, [])) == 1
+    ok_ranges = (once('SetStrictRanges') and by['SetStrictRanges'][0][1].get('min') is vals['_strictMin'] and
+                 by['SetStrictRanges'][0][1].get('max') is vals['_strictMax'] and by['SetStrictRanges'][0][1].get('tight') is vals['_useTightRange']
+                 and by['SetStrictRanges'][0][1].get('clip') is None) if strict else ('SetStrictRanges' not in by)
+    h.check('member-is-an-instance-of-the-nested-solver-class-of-the-ensembles-dimension', 'ok',
+            ok=(once('init') and by['init'][0][0] == [2]))
+    h.check('strict-ranges-and-their-mode-handed-over-iff-set', 'ok', ok=ok_ranges)
+    h.check('limits-handed-over', 'ok', ok=once('SetEvaluationLimits') and by['SetEvaluationLimits'][0][0][0] is vals['_maxiter'] and by['SetEvaluationLimits'][0][0][1] is vals['_maxfun'])
+    h.check('termination-constraints-penalty-handed-over', 'ok',
+            ok=(once('SetTermination') and by['SetTermination'][0][0][0] is vals['_termination'] and
+                once('SetConstraints') and by['SetConstraints'][0][0][0] is vals['_constraints'] and
+                once('SetPenalty') and by['SetPenalty'][0][0][0] is vals['_penalty']))
+    h.check('reducer-handed-over-iff-set', 'ok',
+            ok=(once('SetReducer') and by['SetReducer'][0][0][0] is vals['_reducer']) if red else ('SetReducer' not in by))
+    h.check('raw-objective-and-extra-arguments-handed-over', 'ok',
+            ok=once('SetObjective') and by['SetObjective'][0][0][0] is raw and by['SetObjective'][0][0][1] is extra)
